@@ -277,6 +277,7 @@ def check(pid, tier, record_baseline=False):
         descs = [c.get("desc", "") for c in o.detail.get("failed_checks", [])]
         return 0 if any(not d.startswith("|") for d in descs) else 1
     failed.sort(key=lambda o: (o.backend != "kani", native_observable(o), o.id))
+    twin_done = set()
     for ob in failed:
         if base_ids and ob.id not in base_ids and not record_baseline:
             ob.status = "undecided"
@@ -311,16 +312,33 @@ def check(pid, tier, record_baseline=False):
             twins = pl.get("twins", {}).get(ob.what)
             rep = None
             twin_complete_pass = False
-            if twins:
-                tob = []
-                tmeta = {"verus_runs": [], "kani_runs": [], "ground_runs": []}
-                ov2, res2 = run_kani_set(pl, "thorough", tob, [], tmeta, filters=twins["filters"], tag="twin")
-                bad = [o for o in tob if o.status == "failed"]
-                if bad:
-                    rep = kbackend.counterexample(ov2, bad[0].detail.get("full") or bad[0].what, features=pl.get("kani_features"))
-                    rep["twin_harness"] = bad[0].what
-                elif tob and all(o.status == "ok" for o in tob) and twins.get("complete"):
-                    twin_complete_pass = True
+            kani_cex = [v for v in violations if v[0].backend == "kani" and v[2]]
+            if kani_cex:
+                # a Kani triple of this property has already been refuted with a replayed input: no twin run needed
+                rep = {"reproduced": True, "note": "see the replayed Kani counterexample of %s (%s)" % (kani_cex[0][0].id, kani_cex[0][1]),
+                       "values": "see " + kani_cex[0][1]}
+            elif twins and (ob.what, "twin") not in twin_done:
+                twin_done.add((ob.what, "twin"))
+                # the quick twins first; the full (complete) set only when those pass, under a time budget
+                qf = [f for f in twins["filters"] if re.match(r"c\d\d[q]_", f)]
+                tf = [f for f in twins["filters"] if f not in qf]
+                for stage, flt in (("quick", qf), ("full", tf)):
+                    if not flt:
+                        continue
+                    tob = []
+                    tmeta = {"verus_runs": [], "kani_runs": [], "ground_runs": []}
+                    pl2 = dict(pl, total_timeout={"thorough": 2400}, harness_timeout={"thorough": 900})
+                    ov2, res2 = run_kani_set(pl2, "thorough", tob, [], tmeta, filters=flt, tag="twin")
+                    meta["kani_runs"] += [dict(r, twin_of=ob.id, stage=stage) for r in tmeta["kani_runs"]]
+                    bad = [o for o in tob if o.status == "failed"]
+                    if bad:
+                        rep = kbackend.counterexample(ov2, bad[0].detail.get("full") or bad[0].what, features=pl.get("kani_features"))
+                        rep["twin_harness"] = bad[0].what
+                        break
+                    if not (tob and all(o.status == "ok" for o in tob)):
+                        break      # some twin undecided: no "proof lost" verdict
+                    if stage == "full" and twins.get("complete"):
+                        twin_complete_pass = True
             if rep is None and not twin_complete_pass and pl.get("searcher"):
                 rep = gbackend.run_searcher(pl, ob)
             if twin_complete_pass:
